@@ -717,6 +717,9 @@ Proof.
   - rewrite inner_key_as_app in H2. eapply between_has_prefix; eauto.
 Qed.
 
+Lemma filter_len {A} : forall (f : A -> bool) l, (length (filter f l) <= length l)%nat.
+Proof. intros f l. induction l as [|x l IH]; cbn; [lia|]. destruct (f x); cbn; lia. Qed.
+
 Definition user_range (start limit k : bytes) : bool :=
   ble start k && match limit with [] => true | _ :: _ => blt k limit end.
 
@@ -732,7 +735,51 @@ Proof.
     assert (Hk' : bytes_ok ((path ++ [SEP]) ++ k)) by (apply Forall_app; auto).
     pose proof (bytes_prefix_range (path ++ [SEP]) _ Hp' Hk') as H. unfold in_range in H.
     rewrite has_prefix_app, ble_prefix_app in H. cbn in H. rewrite app_nil_r. exact H.
-  - rewrite inner_key_as_app, blt_app_prefix. reflexivity.
+  - rewrite blt_app_prefix. reflexivity.
+Qed.
+
+(* the snapshot a read-only iterator of a bucket holds: exactly the committed entries of that bucket inside
+   the range, in ascending key order *)
+Lemma range_ents_char : forall s h start limit, keys_sorted s -> keys_bytes s -> bytes_ok (h_path h) ->
+  let it := new_iterator s None h start limit in
+  let X := map (strip (it_pl it)) (it_ents it) in
+  it_ents it = inner_ents (h_path h) X /\
+  (forall k v, In (k, v) X <-> s_get (inner_key (h_path h) k) s = Some v /\ user_range start limit k = true) /\
+  StronglySorted (fun a b => blt (fst a) (fst b) = true) X.
+Proof.
+  intros s h start limit Hs Hb Hp it X.
+  set (path := h_path h) in *.
+  set (ilimit := match limit with [] => bp_limit (inner_key path []) | _ :: _ => Some (inner_key path limit) end).
+  set (ents := range_entries s (inner_key path start) ilimit).
+  assert (Eents : it_ents it = ents) by reflexivity.
+  assert (Epl : it_pl it = S (length path)) by reflexivity.
+  assert (Hpre : Forall (fun e => has_prefix (path ++ [SEP]) (fst e) = true) ents).
+  { rewrite Forall_forall. intros [k v] Hin. cbn [fst]. unfold ents, range_entries in Hin. apply filter_In in Hin.
+    destruct Hin as [Hin Hr]. cbn [fst] in Hr. eapply iter_range_in_bucket; eauto.
+    unfold keys_bytes in Hb. rewrite Forall_forall in Hb. apply (Hb (k, v) Hin). }
+  pose proof (ents_with_prefix path ents Hpre) as Hents.
+  assert (EX : X = map (strip (S (length path))) ents) by (unfold X; rewrite Eents, Epl; reflexivity).
+  rewrite <- EX in Hents. rewrite Eents.
+  split; [exact Hents|]. split.
+  - intros k v. rewrite <- (inner_ents_in path X k v), <- Hents. unfold ents. rewrite range_entries_in by exact Hs.
+    assert (Hkb : s_get (inner_key path k) s = Some v -> bytes_ok k).
+    { intros H1. unfold keys_bytes in Hb. rewrite Forall_forall in Hb. unfold s_get in H1. apply sorted_get_in in H1; auto.
+      apply Hb in H1. cbn in H1. unfold inner_key in H1. apply Forall_app in H1. destruct H1 as [_ H1]. inversion H1; auto. }
+    split; intros [H1 H2]; split; auto.
+    + unfold ilimit in H2. rewrite inner_range_is_user_range in H2; auto.
+    + unfold ilimit. rewrite inner_range_is_user_range; auto.
+  - apply (inner_ents_sorted path). rewrite <- Hents. apply range_entries_sorted. exact Hs.
+Qed.
+
+Lemma inner_ents_keys_nonempty : forall path X, Forall (fun e : bytes * bytes => fst e <> []) (inner_ents path X).
+Proof.
+  intros path X. unfold inner_ents. rewrite Forall_forall. intros e He. apply in_map_iff in He.
+  destruct He as [x [E _]]. subst e. cbn. unfold inner_key. destruct path; discriminate.
+Qed.
+Lemma strip_inner_ents : forall path X, map (strip (S (length path))) (inner_ents path X) = X.
+Proof.
+  intros path X. unfold inner_ents. rewrite map_map. induction X as [|[k v] X IH]; cbn [map]; [reflexivity|].
+  rewrite IH. unfold strip. cbn [fst snd]. rewrite skipn_inner_key. reflexivity.
 Qed.
 
 (* C11_iter_exact: a read-only iterator over Range{start, limit} (empty limit = to the end of the bucket),
@@ -743,29 +790,14 @@ Lemma iter_exact : forall s h start limit, keys_sorted s -> keys_bytes s -> byte
   StronglySorted (fun a b => blt (fst a) (fst b) = true) out.
 Proof.
   intros s h start limit Hs Hb Hp out.
-  set (path := h_path h) in *.
-  set (ilimit := match limit with [] => bp_limit (inner_key path []) | _ :: _ => Some (inner_key path limit) end).
-  set (ents := range_entries s (inner_key path start) ilimit).
-  assert (Hpre : Forall (fun e => has_prefix (path ++ [SEP]) (fst e) = true) ents).
-  { rewrite Forall_forall. intros [k v] Hin. cbn [fst]. unfold ents, range_entries in Hin. apply filter_In in Hin.
-    destruct Hin as [Hin Hr]. cbn [fst] in Hr. eapply iter_range_in_bucket; eauto.
-    unfold keys_bytes in Hb. rewrite Forall_forall in Hb. apply (Hb (k, v) Hin). }
-  assert (Hout : out = map (strip (S (length path))) ents).
-  { unfold out. rewrite drain_read_only; cbn; auto.
-    - fold path ilimit ents. eapply Forall_impl; [|exact Hpre]. intros [k v] Hk. cbn in *.
-      intros E. subst k. destruct (path ++ [SEP]) eqn:E2; [destruct path; discriminate|]. cbn in Hk. discriminate.
-    - fold path ilimit ents. unfold ents, range_entries. pose proof (filter_length_le (fun e => in_range (inner_key path start) ilimit (fst e)) s). lia. }
-  pose proof (ents_with_prefix path ents Hpre) as Hents. rewrite <- Hout in Hents.
-  split.
-  - intros k v. rewrite <- (inner_ents_in path out k v), <- Hents. unfold ents. rewrite range_entries_in by exact Hs.
-    split; intros [H1 H2]; split; auto.
-    + unfold ilimit in H2. rewrite inner_range_is_user_range in H2; auto.
-      unfold keys_bytes in Hb. rewrite Forall_forall in Hb. unfold s_get in H1. apply sorted_get_in in H1; auto.
-      apply Hb in H1. cbn in H1. unfold inner_key in H1. apply Forall_app in H1. destruct H1 as [_ H1]. inversion H1; auto.
-    + unfold ilimit. rewrite inner_range_is_user_range; auto.
-      unfold keys_bytes in Hb. rewrite Forall_forall in Hb. unfold s_get in H1. apply sorted_get_in in H1; auto.
-      apply Hb in H1. cbn in H1. unfold inner_key in H1. apply Forall_app in H1. destruct H1 as [_ H1]. inversion H1; auto.
-  - apply (inner_ents_sorted path). rewrite <- Hents. apply range_entries_sorted. exact Hs.
+  destruct (range_ents_char s h start limit Hs Hb Hp) as [He [Hin Hsorted]].
+  set (it := new_iterator s None h start limit) in *.
+  assert (Hout : out = map (strip (it_pl it)) (it_ents it)).
+  { unfold out. fold it. rewrite drain_read_only; auto.
+    - rewrite He. apply inner_ents_keys_nonempty.
+    - unfold it_rest. cbn [it new_iterator it_pos it_ents]. unfold range_entries.
+      match goal with |- (length (filter ?f s) < _)%nat => pose proof (filter_len f s) end. lia. }
+  rewrite Hout. split; assumption.
 Qed.
 
 (* the same for NewIterator(db.BytesPrefix(p)): exactly the entries whose key has the prefix *)
@@ -796,4 +828,287 @@ Proof.
   - rewrite prefix_slice_range; auto.
     unfold keys_bytes in Hb. rewrite Forall_forall in Hb. unfold s_get in A. apply sorted_get_in in A; auto.
     apply Hb in A. cbn in A. unfold inner_key in A. apply Forall_app in A. destruct A as [_ A]. inversion A; auto.
+Qed.
+
+(* ------------------------------------------------------------------ C11_seek *)
+Lemma filter_all_ge : forall k (ents : list (bytes * bytes)) e, keys_sorted (e :: ents) -> ble k (fst e) = true ->
+  filter (fun x => ble k (fst x)) (e :: ents) = e :: ents.
+Proof.
+  intros k ents e Hs Hk. inversion Hs as [|? ? Hs' Hall]; subst. cbn [filter]. rewrite Hk. f_equal.
+  rewrite Forall_forall in Hall.
+  assert (H : forall x, In x ents -> ble k (fst x) = true).
+  { intros x Hx. apply Hall in Hx. unfold key_lt in Hx. apply ble_iff. left. eapply ble_trans_lt; eauto. }
+  clear -H. induction ents as [|x ents IH]; cbn; [reflexivity|].
+  rewrite (H x) by (cbn; auto). f_equal. apply IH. intros y Hy. apply H. cbn. auto.
+Qed.
+Lemma find_ge_spec : forall k ents i, keys_sorted ents ->
+  match find_ge k ents i with
+  | Some j => exists n, j = (i + n)%nat /\ (n < length ents)%nat /\ skipn n ents = filter (fun x => ble k (fst x)) ents
+  | None => filter (fun x => ble k (fst x)) ents = []
+  end.
+Proof.
+  intros k ents. induction ents as [|[k' v] ents IH]; intros i Hs; cbn [find_ge].
+  - reflexivity.
+  - destruct (ble k k') eqn:E.
+    + exists 0%nat. split; [lia|]. split; [cbn; lia|]. cbn [skipn]. symmetry. apply filter_all_ge; auto.
+    + inversion Hs as [|? ? Hs' Hall]; subst. specialize (IH (S i) Hs'). cbn [filter fst]. rewrite E.
+      destruct (find_ge k ents (S i)) as [j|]; auto.
+      destruct IH as [n [Ej [Hn Hsk]]]. exists (S n). split; [lia|]. split; [cbn; lia|]. exact Hsk.
+Qed.
+
+Definition iter_current (it : iter) : list (bytes * bytes) :=
+  match iter_key it with Some k => [(k, iter_value it)] | None => [] end.
+
+(* Seek(key) on a read-only iterator positions at the first entry >= key; that entry and the following Next()s
+   are exactly the snapshot entries >= key *)
+Lemma seek_read_only : forall it key, it_ro it = true -> keys_sorted (it_ents it) ->
+  Forall (fun e => fst e <> []) (it_ents it) ->
+  let ge := filter (fun e => ble (inner_key (it_path it) key) (fst e)) (it_ents it) in
+  (fst (iter_seek it key) = true <-> ge <> []) /\
+  iter_current (snd (iter_seek it key)) ++ drain (S (length (it_ents it))) (snd (iter_seek it key))
+    = map (strip (it_pl it)) ge.
+Proof.
+  intros it key Hro Hs Hne ge. unfold iter_seek, ldb_seek. set (ik := inner_key (it_path it) key) in *.
+  pose proof (find_ge_spec ik (it_ents it) 0%nat Hs) as Hf. fold ge in Hf.
+  destruct (find_ge ik (it_ents it) 0%nat) as [j|].
+  - destruct Hf as [n [Ej [Hn Hsk]]]. cbn in Ej. subst j. rewrite Hro. cbn [fst snd].
+    destruct (nth_error (it_ents it) n) as [e|] eqn:En; [|apply nth_error_None in En; lia].
+    rewrite (skipn_nth_error _ _ _ En) in Hsk. split.
+    + rewrite <- Hsk. split; [discriminate|reflexivity].
+    + set (it' := set_ldb it (At n) false).
+      assert (Hk : iter_current it' = [strip (it_pl it) e]).
+      { unfold iter_current, iter_key, iter_value, iter_raw, it'. cbn [set_ldb it_end it_pos it_ents negb it_pl]. rewrite En.
+        destruct e as [k v]. rewrite Forall_forall in Hne. apply nth_error_In in En. apply Hne in En. cbn in En.
+        destruct k; [congruence|]. reflexivity. }
+      rewrite Hk. rewrite drain_read_only; unfold it'; cbn [set_ldb it_pos it_ents it_ro it_end it_pl]; auto.
+      * unfold it_rest. cbn [set_ldb it_pos it_ents]. rewrite <- Hsk. reflexivity.
+      * unfold it_rest. cbn [set_ldb it_pos it_ents]. rewrite skipn_length. lia.
+  - rewrite Hro. cbn [fst snd]. rewrite Hf. split; [split; [discriminate|congruence]|].
+    unfold iter_current, iter_key, iter_raw. cbn [set_ldb it_end it_ro negb andb]. rewrite Hro. cbn [negb andb app map].
+    cbn [drain]. unfold iter_next. cbn [set_ldb it_end it_ro]. rewrite Hro. reflexivity.
+Qed.
+
+Lemma filter_inner_ents : forall path key X,
+  filter (fun e => ble (inner_key path key) (fst e)) (inner_ents path X)
+  = inner_ents path (filter (fun e => ble key (fst e)) X).
+Proof.
+  intros path key X. unfold inner_ents. induction X as [|[k v] X IH]; cbn [map filter fst]; [reflexivity|].
+  rewrite !inner_key_as_app, ble_app_prefix. destruct (ble key k); cbn [map fst snd]; rewrite <- ?inner_key_as_app, IH; reflexivity.
+Qed.
+
+(* C11_seek at the level of user keys: after Seek(key) on a read-only iterator over Range{start, limit} the current
+   entry followed by everything Next() yields is exactly the committed entries of the bucket in the range with
+   key' >= key, ascending; Seek answers true iff there is one *)
+Lemma seek_exact : forall s h start limit key, keys_sorted s -> keys_bytes s -> bytes_ok (h_path h) ->
+  let r := iter_seek (new_iterator s None h start limit) key in
+  let out := iter_current (snd r) ++ drain (S (length s)) (snd r) in
+  (forall k v, In (k, v) out <->
+     s_get (inner_key (h_path h) k) s = Some v /\ user_range start limit k = true /\ ble key k = true) /\
+  StronglySorted (fun a b => blt (fst a) (fst b) = true) out /\
+  (fst r = true <-> out <> []).
+Proof.
+  intros s h start limit key Hs Hb Hp r out.
+  destruct (range_ents_char s h start limit Hs Hb Hp) as [He [Hin Hsorted]].
+  set (it := new_iterator s None h start limit) in *.
+  set (X := map (strip (it_pl it)) (it_ents it)) in *.
+  assert (Hsorted_e : keys_sorted (it_ents it)) by (apply range_entries_sorted; exact Hs).
+  assert (Hne : Forall (fun e : bytes * bytes => fst e <> []) (it_ents it)) by (rewrite He; apply inner_ents_keys_nonempty).
+  destruct (seek_read_only it key eq_refl Hsorted_e Hne) as [Hb1 Hd].
+  assert (Hlen : (length (it_ents it) <= length s)%nat).
+  { cbn [it new_iterator it_ents]. unfold range_entries. apply filter_len. }
+  (* the drain fuel: any fuel above the number of snapshot entries gives the same list *)
+  assert (Hfuel : drain (S (length s)) (snd r) = drain (S (length (it_ents it))) (snd r)).
+  { unfold r. fold it. unfold iter_seek, ldb_seek.
+    pose proof (find_ge_spec (inner_key (it_path it) key) (it_ents it) 0%nat Hsorted_e) as Hf.
+    destruct (find_ge (inner_key (it_path it) key) (it_ents it) 0%nat) as [j|].
+    - destruct Hf as [n [Ej [Hn _]]]. cbn in Ej. subst j. change (it_ro it) with true. cbn [snd].
+      set (it' := set_ldb it (At n) false).
+      assert (Hr : (length (it_rest it') < S (length (it_ents it)))%nat).
+      { unfold it_rest, it'. cbn [set_ldb it_pos it_ents]. rewrite skipn_length. lia. }
+      assert (A1 : it_ro it' = true) by reflexivity.
+      assert (A2 : it_end it' = false) by reflexivity.
+      assert (A3 : Forall (fun e : bytes * bytes => fst e <> []) (it_ents it')) by exact Hne.
+      rewrite (drain_read_only (S (length s)) it' A1 A2 A3) by lia.
+      rewrite (drain_read_only (S (length (it_ents it))) it' A1 A2 A3) by lia.
+      reflexivity.
+    - change (it_ro it) with true. cbn [snd]. cbn [drain]. unfold iter_next. cbn [set_ldb it_end it_ro orb]. reflexivity. }
+  assert (Hout : out = filter (fun e => ble key (fst e)) X).
+  { unfold out. rewrite Hfuel. unfold r. rewrite Hd.
+    replace (it_path it) with (h_path h) by reflexivity. rewrite He, filter_inner_ents.
+    replace (it_pl it) with (S (length (h_path h))) by reflexivity. apply strip_inner_ents. }
+  split; [|split].
+  - intros k v. rewrite Hout, filter_In, Hin. cbn [fst]. tauto.
+  - rewrite Hout. apply (@filter_sorted bytes). exact Hsorted.
+  - unfold r. rewrite Hb1. rewrite Hout. replace (it_path it) with (h_path h) by reflexivity.
+    rewrite He, filter_inner_ents. unfold inner_ents.
+    destruct (filter (fun e => ble key (fst e)) X); cbn; split; congruence.
+Qed.
+
+(* ------------------------------------------------------------------ C11_read_your_writes: prefix reads *)
+Definition batch_wf (b : batch) : Prop := batch_ok b /\ keys_sorted (b_puts b).
+Lemma batch_wf_empty : batch_wf empty_batch.
+Proof. split; [apply batch_ok_empty|constructor]. Qed.
+Lemma batch_wf_put : forall b k v, batch_wf b -> batch_wf (batch_put b k v).
+Proof. intros b k v [H1 H2]. split; [apply batch_ok_put; exact H1|]. cbn. apply m_put_sorted. exact H2. Qed.
+Lemma batch_wf_delete : forall b k, batch_wf b -> batch_wf (batch_delete b k).
+Proof. intros b k [H1 H2]. split; [apply batch_ok_delete; exact H1|exact H2]. Qed.
+
+(* the committed side of a prefix scan *)
+Lemma prefix_entries_in : forall s ip key value, keys_sorted s -> bytes_ok ip -> bytes_ok key ->
+  (In (key, value) (prefix_entries s ip) <-> s_get key s = Some value /\ has_prefix ip key = true).
+Proof.
+  intros s ip key value Hs Hip Hk. unfold prefix_entries. rewrite range_entries_in by exact Hs.
+  rewrite bytes_prefix_range by assumption. tauto.
+Qed.
+
+(* merged_value agrees with the committed result *)
+Lemma merged_value_commit : forall s b key value, batch_ok b -> s_get key s = Some value ->
+  merged_value (Some b) key value = s_get key (commit s b).
+Proof.
+  intros s b key value Hb Hs. rewrite commit_get by exact Hb. unfold merged_value, batch_view.
+  destruct (batch_get_shape b key) as [E|[E|[v E]]]; rewrite E; auto.
+Qed.
+
+(* the batch side: net puts are exactly the keys whose last operation is a put *)
+Lemma net_puts_in : forall b ip key d, batch_wf b ->
+  (In (key, d) (net_puts_by_prefix b ip) <-> has_prefix ip key = true /\ batch_view b key = Some (Some d)).
+Proof.
+  intros b ip key d [Hb Hsorted]. unfold net_puts_by_prefix. rewrite in_flat_map. split.
+  - intros [[k [d' sp]] [Hin H]]. pose proof Hin as Hget. apply sorted_get_in in Hget; [|exact Hsorted].
+    destruct (has_prefix ip k) eqn:Ep; [|destruct H].
+    assert (Hk : (k, d') = (key, d)).
+    { destruct (m_get k (b_dels b)) as [sd|]; [destruct (sd <? sp)|]; cbn in H; tauto. }
+    inversion Hk; subst k d'. split; auto.
+    rewrite summary_sound by exact Hb. destruct Hb as [_ Hko]. specialize (Hko key). unfold key_ok in Hko.
+    destruct (view_of_rlog (b_rlog b) key) as [[v|]|].
+    + destruct Hko as [sp' [Hp' _]]. congruence.
+    + destruct Hko as [sd [Hd Hlt]]. rewrite Hd in H. specialize (Hlt d sp Hget).
+      replace (sd <? sp) with false in H by (symmetry; apply Z.ltb_ge; lia). destruct H.
+    + destruct Hko as [Hp' _]. congruence.
+  - intros [Hpre Hv]. pose proof Hb as Hb'. rewrite summary_sound in Hv by exact Hb. destruct Hb as [_ Hko]. specialize (Hko key).
+    unfold key_ok in Hko. rewrite Hv in Hko. destruct Hko as [sp [Hp Hd]].
+    exists (key, (d, sp)). split; [apply sorted_get_in; auto|]. rewrite Hpre.
+    destruct (m_get key (b_dels b)) as [sd|] eqn:Ed; [|cbn; auto].
+    specialize (Hd sd eq_refl). replace (sd <? sp) with true by (symmetry; apply Z.ltb_lt; lia). cbn. auto.
+Qed.
+
+Lemma gbp_committed_spec : forall ob pl ents,
+  (forall k' v, In (k', v) (fst (gbp_committed ob pl ents)) <->
+     exists key value, In (key, value) ents /\ merged_value ob key value = Some v /\ k' = skipn pl key) /\
+  (forall key, In key (snd (gbp_committed ob pl ents)) <->
+     exists value v, In (key, value) ents /\ merged_value ob key value = Some v).
+Proof.
+  intros ob pl. induction ents as [|[key value] ents [IH1 IH2]]; cbn [gbp_committed].
+  - split; intros; cbn; split; try tauto; intros [? [? [[] _]]].
+  - destruct (gbp_committed ob pl ents) as [es set] eqn:E. cbn [fst snd] in *.
+    destruct (merged_value ob key value) as [v0|] eqn:Em; cbn [fst snd]; split.
+    + intros k' v. cbn [In]. rewrite IH1. split.
+      * intros [H|[key' [value' [Hin [Hm Hk]]]]].
+        -- inversion H; subst. exists key, value. cbn. auto.
+        -- exists key', value'. cbn. auto.
+      * intros [key' [value' [[Hin|Hin] [Hm Hk]]]].
+        -- inversion Hin; subst. left. congruence.
+        -- right. eauto.
+    + intros key'. cbn [In]. rewrite IH2. split.
+      * intros [H|[value' [v [Hin Hm]]]]; [subst; exists value, v0; cbn; auto|exists value', v; cbn; auto].
+      * intros [value' [v [[Hin|Hin] Hm]]]; [inversion Hin; subst; auto|right; eauto].
+    + intros k' v. rewrite IH1. split.
+      * intros [key' [value' [Hin [Hm Hk]]]]. exists key', value'. cbn. auto.
+      * intros [key' [value' [[Hin|Hin] [Hm Hk]]]]; [inversion Hin; subst; congruence|eauto].
+    + intros key'. rewrite IH2. split.
+      * intros [value' [v [Hin Hm]]]. exists value', v. cbn. auto.
+      * intros [value' [v [[Hin|Hin] Hm]]]; [inversion Hin; subst; congruence|eauto].
+Qed.
+
+Lemma existsb_beqb_in : forall k l, existsb (beqb k) l = true <-> In k l.
+Proof.
+  intros k l. rewrite existsb_exists. split.
+  - intros [x [Hin He]]. apply beqb_true_iff in He. subst. exact Hin.
+  - intros Hin. exists k. split; auto. apply beqb_refl.
+Qed.
+
+Lemma has_prefix_inner : forall path prefix key, has_prefix (inner_key path prefix) key = true ->
+  exists k, key = inner_key path k /\ has_prefix prefix k = true.
+Proof.
+  intros path prefix key H. apply has_prefix_iff in H. destruct H as [r Hr]. exists (prefix ++ r).
+  rewrite inner_key_app. split; auto. apply has_prefix_app.
+Qed.
+Lemma has_prefix_inner_iff : forall path prefix k, has_prefix (inner_key path prefix) (inner_key path k) = has_prefix prefix k.
+Proof. intros. rewrite !inner_key_as_app. apply has_prefix_app_inv. Qed.
+
+Lemma store_key_bytes : forall (s : store) key value, keys_sorted s -> keys_bytes s -> s_get key s = Some value -> bytes_ok key.
+Proof.
+  intros s key value Hs Hb H. unfold s_get in H. apply sorted_get_in in H; auto.
+  unfold keys_bytes in Hb. rewrite Forall_forall in Hb. apply (Hb _ H).
+Qed.
+
+(* inside a write transaction GetByPrefix returns exactly the entries the store would hold if the transaction
+   were committed now (its own puts, overwrites and deletes included), restricted to the prefix *)
+Lemma read_your_writes_prefix : forall s b h prefix, keys_sorted s -> keys_bytes s -> batch_wf b ->
+  bytes_ok (h_path h) -> bytes_ok prefix ->
+  forall k v, In (k, v) (get_by_prefix s (Some b) h prefix) <->
+              has_prefix prefix k = true /\ s_get (inner_key (h_path h) k) (commit s b) = Some v.
+Proof.
+  intros s b h prefix Hs Hkb [Hb Hps] Hp Hpre k v. unfold get_by_prefix.
+  set (path := h_path h) in *. set (ip := inner_key path prefix). set (pl := S (length path)).
+  assert (Hip : bytes_ok ip).
+  { unfold ip, inner_key. apply Forall_app. split; auto. constructor; [unfold byte_ok, SEP; lia|auto]. }
+  pose proof (gbp_committed_spec (Some b) pl (prefix_entries s ip)) as [G1 G2].
+  destruct (gbp_committed (Some b) pl (prefix_entries s ip)) as [es set] eqn:E. cbn [fst snd] in *.
+  rewrite in_app_iff, G1, in_flat_map. split.
+  - intros [[key [value [Hin [Hm Hk]]]]|[[key d] [Hin H]]].
+    + assert (Hsome : exists x, s_get key s = Some x /\ has_prefix ip key = true).
+      { unfold prefix_entries, range_entries in Hin. apply filter_In in Hin. destruct Hin as [Hin Hr]. cbn [fst] in Hr.
+        assert (Hbk : bytes_ok key) by (unfold keys_bytes in Hkb; rewrite Forall_forall in Hkb; apply (Hkb _ Hin)).
+        rewrite bytes_prefix_range in Hr by assumption. exists value. split; auto. apply sorted_get_in; auto. }
+      destruct Hsome as [x [Hx Hpk]]. apply prefix_entries_in in Hin; auto; [|eapply store_key_bytes; eauto].
+      destruct Hin as [Hget _]. apply has_prefix_inner in Hpk. destruct Hpk as [k0 [Ek Hpk]]. subst key.
+      unfold pl in Hk. rewrite skipn_inner_key in Hk. subst k0. split; auto.
+      rewrite <- (merged_value_commit s b _ value Hb Hget). exact Hm.
+    + cbn [fst snd] in H. destruct (existsb (beqb key) set) eqn:Ex; [destruct H|]. destruct H as [H|[]]. inversion H; subst k v.
+      apply net_puts_in in Hin; [|split; auto]. destruct Hin as [Hpk Hv].
+      apply has_prefix_inner in Hpk. destruct Hpk as [k0 [Ek Hpk]]. subst key. unfold pl. rewrite skipn_inner_key.
+      split; auto. rewrite commit_get by exact Hb. rewrite Hv. reflexivity.
+  - intros [Hpk Hget]. set (ik := inner_key path k) in *.
+    assert (Hpik : has_prefix ip ik = true) by (unfold ip, ik; rewrite has_prefix_inner_iff; exact Hpk).
+    rewrite commit_get in Hget by exact Hb.
+    destruct (s_get ik s) as [value|] eqn:Es.
+    + left. exists ik, value. split; [|split].
+      * apply prefix_entries_in; auto. eapply store_key_bytes; eauto.
+      * rewrite (merged_value_commit s b ik value Hb Es), commit_get by exact Hb. exact Hget.
+      * unfold pl, ik. rewrite skipn_inner_key. reflexivity.
+    + right. destruct (batch_view b ik) as [[d|]|] eqn:Ev; try discriminate. inversion Hget; subst d.
+      exists (ik, v). split.
+      * apply net_puts_in; [split; auto|]. auto.
+      * cbn [fst snd]. destruct (existsb (beqb ik) set) eqn:Ex.
+        -- apply existsb_beqb_in in Ex. apply G2 in Ex. destruct Ex as [value [v' [Hin _]]].
+           unfold prefix_entries, range_entries in Hin. apply filter_In in Hin. destruct Hin as [Hin _].
+           apply sorted_get_in in Hin; auto. unfold s_get in Es. congruence.
+        -- left. unfold pl, ik. rewrite skipn_inner_key. reflexivity.
+Qed.
+
+(* outside a write transaction: exactly the committed entries with the prefix *)
+Lemma read_only_prefix : forall s h prefix, keys_sorted s -> keys_bytes s -> bytes_ok (h_path h) -> bytes_ok prefix ->
+  forall k v, In (k, v) (get_by_prefix s None h prefix) <->
+              has_prefix prefix k = true /\ s_get (inner_key (h_path h) k) s = Some v.
+Proof.
+  intros s h prefix Hs Hkb Hp Hpre k v. unfold get_by_prefix.
+  set (path := h_path h) in *. set (ip := inner_key path prefix). set (pl := S (length path)).
+  assert (Hip : bytes_ok ip).
+  { unfold ip, inner_key. apply Forall_app. split; auto. constructor; [unfold byte_ok, SEP; lia|auto]. }
+  pose proof (gbp_committed_spec None pl (prefix_entries s ip)) as [G1 _].
+  destruct (gbp_committed None pl (prefix_entries s ip)) as [es set] eqn:E. cbn [fst snd] in *.
+  rewrite G1. split.
+  - intros [key [value [Hin [Hm Hk]]]]. cbn in Hm. inversion Hm; subst value.
+    assert (Hbk : bytes_ok key).
+    { unfold prefix_entries, range_entries in Hin. apply filter_In in Hin. destruct Hin as [Hin _].
+      unfold keys_bytes in Hkb. rewrite Forall_forall in Hkb. apply (Hkb _ Hin). }
+    apply prefix_entries_in in Hin; auto. destruct Hin as [Hget Hpk].
+    apply has_prefix_inner in Hpk. destruct Hpk as [k0 [Ek Hpk]]. subst key.
+    unfold pl in Hk. rewrite skipn_inner_key in Hk. subst k0. auto.
+  - intros [Hpk Hget]. exists (inner_key path k), v. split; [|split].
+    + apply prefix_entries_in; auto; [eapply store_key_bytes; eauto|]. split; auto.
+      unfold ip. rewrite has_prefix_inner_iff. exact Hpk.
+    + reflexivity.
+    + unfold pl. rewrite skipn_inner_key. reflexivity.
 Qed.
